@@ -11,7 +11,7 @@ from ..prog import build, compare, run_program
 from ..spaces import shard_iter
 
 ID = "C20"
-BUDGET = {"quick": 100, "thorough": 300}
+BUDGET = {"quick": 240, "thorough": 300}
 
 
 def P(name):
